@@ -376,6 +376,7 @@ def showChanges (l : List (Nat × Value)) : String :=
 def natList (l : List Nat) : String := if l.isEmpty then "-" else ",".intercalate (l.map toString)
 
 structure Denotation where
+  leaves : List Leaf
   ops : List LOp
   changes : List (List (Nat × Value))
   times : List Nat
@@ -388,7 +389,7 @@ def denote (items : List DItem) (w : Wave) : Option Denotation := do
   let snapChanges := (List.range w.natoms).zip w.snap |>.map fun (i, v) => (i + 1, v)
   let s1 ← stepW leaves s0 w.t0 snapChanges
   let s ← w.steps.foldl (fun (acc : Option WSt) st => acc.bind fun s => stepW leaves s st.1 st.2) (some s1)
-  some { ops := acc.ops.reverse, changes := s.changesRev.toList.map fun l => canon l.reverse, times := s.ttRev.reverse }
+  some { leaves := leaves, ops := acc.ops.reverse, changes := s.changesRev.toList.map fun l => canon l.reverse, times := s.ttRev.reverse }
 
 /-- the full dump (C11) -/
 def render (d : Denotation) : Option String :=
@@ -440,6 +441,50 @@ def obsOps (d : Denotation) : List LOp :=
       let w := if enc = "R" then "real" else (enc.drop 1).toString
       { o with label := hexOr (name.toList.map Char.toNat) ++ "," ++ w }
     | .pop => o
+
+/-! ### the same design as an FST file (C10): gen/fst_writer.py derives kinds / directions from the design -/
+
+def fstVarType (k : LeafKind) (firstAtom : Nat) : String :=
+  let pick (l : List String) := l.getD (firstAtom % l.length) "?"
+  match k with
+  | .nine => pick ["Logic", "Wire", "Reg", "Tri", "TriReg", "WAnd"]
+  | .two => pick ["Bit", "Wire", "Parameter"]
+  | .enumBits _ => pick ["Enum", "Wire"]
+  | .int32 => pick ["Integer", "Int"]
+  | .real => pick ["Real", "RealTime", "Parameter", "ShortReal"]
+
+def fstScopeKind (k : String) : String :=
+  if k = "GhwGeneric" then "Module" else if k = "VhdlArray" then "Struct" else k
+
+/-- the labels an FST rendering of the design shows: no type names, no enum tables; kinds as written by the FST writer -/
+def fstOps (d : Denotation) : List LOp :=
+  d.ops.map fun o =>
+    match o.op with
+    | .scope _ _ =>
+      match o.label.splitOn "," with
+      | [k, n] => { o with label := fstScopeKind k ++ "," ++ n }
+      | _ => o
+    | .var _ _ =>
+      let lf := d.leaves.getD o.sig default
+      match o.label.splitOn "," with
+      | [_, n, dir, enc, idx] => { o with label := s!"{fstVarType lf.kind (lf.atoms.headD 0)},{n},{dir},{enc},{idx}", tail := "-,-" }
+      | _ => o
+    | .pop => o
+
+/-- FST has no delta cycles: one value per signal and time, the last one -/
+def fstChanges (l : List (Nat × Value)) : List (Nat × Value) := canon (lastPerStep l)
+
+def renderFst (d : Denotation) (div : Nat) : Option String :=
+  (treeS (fstOps d) (fun i => showChanges (fstChanges (d.changes.getD i [])))).map fun t =>
+    t ++ "|tt=" ++ natList (d.times.map (· / div)) ++ "|ts=1:" ++ (if div = 1 then "FemtoSeconds" else "PicoSeconds")
+
+def specFst (design unit : String) : String :=
+  match parseDesign design with
+  | none => "-"
+  | some (items, w) =>
+    match (denote items w).bind (fun d => renderFst d (if unit = "fs" then 1 else 1000)) with
+    | none => "-"
+    | some s => s
 
 /-- the observation of a design's denotation -/
 def observe (d : Denotation) : Option String :=
